@@ -92,37 +92,42 @@ func ruleG1(w *World, r *Report) {
 			continue
 		}
 		key := name + " › read-only arm returns an error"
-		ok := false
-		entry := fn.Blocks[0]
-		if ifi, isIf := entry.Instrs[len(entry.Instrs)-1].(*ssa.If); isIf {
+		// explore every path on which each Store.readOnly test answers "true" (the store is a
+		// snapshot): all of them must end in the return of a definite error
+		idx := errResultIndex(fn)
+		ok, tests := idx >= 0, 0
+		why := "the function has no error result"
+		var badAt ssa.Instruction
+		wk := &Walker{Fn: fn}
+		wk.Branch = func(env *Env, ifi *ssa.If) (bool, bool) {
 			c, pol := Guard{Cond: ifi.Cond, Pol: true}.atom()
 			if _, isRO := isLoadOfField(c, "Store", "readOnly"); isRO {
-				arm := entry.Succs[0]
-				if !pol {
-					arm = entry.Succs[1]
-				}
-				idx := errResultIndex(fn)
-				for _, in := range arm.Instrs {
-					switch x := in.(type) {
-					case *ssa.Return:
-						if idx >= 0 && isNonNilErrorValue(x.Results[idx]) {
-							ok = true
-						}
-					case *ssa.Store:
-						if isNonNilErrorValue(x.Val) {
-							ok = true // named result
-						}
-					}
-				}
-				// nothing before the test but loads
-				for _, in := range entry.Instrs {
-					if _, isCall := in.(ssa.CallInstruction); isCall {
-						ok = false
-					}
-				}
+				tests++
+				return pol, !pol
 			}
+			return true, true
 		}
-		r.Check(ok, rule, key, w.Pos(fn.Pos()), "first action is the Store.readOnly test; its true arm returns a fresh error", "the function does not start with a Store.readOnly test whose true arm returns an error: a snapshot does not refuse this call")
+		wk.OnInstr = func(env *Env, in ssa.Instruction, trail []*ssa.BasicBlock) bool {
+			if ret, isRet := in.(*ssa.Return); isRet && idx >= 0 && in.Block().Comment != "recover" {
+				if v := env.Resolve(ret.Results[idx]); !isNonNilErrorValue(v) && ok {
+					ok, badAt = false, in
+					why = "with Store.readOnly true a path through the function returns something other than a definite error: a snapshot does not refuse this call"
+				}
+				return true
+			}
+			return false
+		}
+		if idx >= 0 {
+			wk.Run(nil, nil)
+		}
+		if ok && tests == 0 {
+			ok, why = false, "the function never tests Store.readOnly"
+		}
+		pos := w.Pos(fn.Pos())
+		if badAt != nil {
+			pos = w.InstrPos(badAt)
+		}
+		r.Check(ok, rule, key, pos, "on every path where the Store.readOnly test answers true the call returns a definite error", why)
 	}
 	r.Floor(rule, 45)
 }
@@ -715,7 +720,7 @@ func init() {
 	register(&Property{
 		ID:    "C12",
 		Level: "other",
-		Rules: []Rule{{"M1", ruleM1}, {"M3", ruleM3}, {"M5", ruleM5}, {"F3", ruleF3}, {"P1", ruleP1}, {"FL1", ruleFL1}, {"F6", ruleF6}, {"O6r", ruleO6r}},
+		Rules: []Rule{{"M1", ruleM1}, {"M3", ruleM3}, {"M5", ruleM5}, {"F3", ruleF3}, {"P1", ruleP1}, {"FL1", ruleFL1}, {"F6", ruleF6}, {"O6r", ruleO6r}, {"O1", ruleO1}},
 		Explanation: "M1 the collection map is copy-on-write: every update/delete targets a map created or copied in that function, before it is published, and Store.coll is only assigned through setColl/casColl or on a store under construction. M2 GetCollectionNames returns a slice sorted on every return. M3 on an existing name SetCollection gives the new handle the old handle's lock and a pinned reference of the old version; old handles are closed only after the swap succeeded and speculative ones only when it failed. M4 = F3: closing the replaced/removed handle cannot recycle nodes another handle still uses. M5 none of the management functions reaches a file sink, so durability can only come from the next Flush, which pins and lists exactly the names of the map it captured (FL1). NOT decided: name-set bookkeeping across flush/reopen histories.",
 		ControlSrc:  controlC04,
 		Expect: []Expect{
